@@ -235,4 +235,196 @@ theorem elems_pathSet (sep : Byte) (hs : sep ≠ 0) (text : List Byte) (h0 : (0 
       (by simp [pathSet, h1, h2]) ?_ (by simp [pathSet]) (by simp [pathSet])
     simp [pathSet, h3 hsep]
 
+/-- `elems_first0` for a text that is followed by anything (an assign character and the value text, …) -/
+theorem elems_first0G (sep : Byte) : ∀ (n : Nat) (t pre tl : List Byte) (p : Path) (fuel : Nat),
+    t.length ≤ n → t.length + 2 ≤ fuel → tl ≠ [] →
+    p.base = pre ++ t ++ tl → p.off = pre.length → p.len = t.length + 1 → p.first = 0 → p.binary = false →
+    p.sep = sep →
+    elems p fuel = .ok (splitOn sep t) := by
+  intro n
+  induction n with
+  | zero =>
+    intro t pre tl p fuel hn hf htl hb ho hl hfi hbin hs
+    have ht : t = [] := List.length_eq_zero_iff.1 (by omega)
+    subst ht
+    obtain ⟨f, rfl⟩ : ∃ f, fuel = f + 2 := ⟨fuel - 2, by omega⟩
+    have hnext : pathNext p = .ok ({ p with off := p.off + 1, len := 0 }, 0) := by
+      simp [pathNext, hl, hbin, hfi, hb, ho, memchr]
+    simp [elems, hl, hnext, splitOn, hb, ho]
+  | succ n ih =>
+    intro t pre tl p fuel hn hf htl hb ho hl hfi hbin hs
+    obtain ⟨f, rfl⟩ : ∃ f, fuel = f + 1 := ⟨fuel - 1, by omega⟩
+    have hdata : p.base.drop p.off = t ++ tl := by simp [hb, ho]
+    by_cases hsep : sep ∈ t
+    · obtain ⟨a, rest, hta, hna⟩ := exists_first_sep sep t hsep
+      have hmem : memchr (t ++ tl) sep t.length = some a.length := by
+        rw [hta]
+        simp only [List.append_assoc, List.cons_append]
+        apply memchr_some _ _ _ _ hna
+        simp
+      have hnext : pathNext p = .ok ({ p with off := p.off + (a.length + 1), len := p.len - (a.length + 1) }, a.length) := by
+        simp only [pathNext, hl, hbin, hfi, hdata, hs]
+        simp [hb, ho, hmem]
+      have hq := ih rest (pre ++ a ++ [sep]) tl { p with off := p.off + (a.length + 1), len := p.len - (a.length + 1) } f
+        (by rw [hta] at hn; simp at hn; omega) (by rw [hta] at hf; simp at hf; omega) htl
+        (by simp [hb, hta]) (by simp [ho]) (by simp [hl, hta]) hfi hbin hs
+      simp only [elems]
+      have hl0 : ¬ p.len = 0 := by omega
+      simp only [hl0, ↓reduceIte, hnext]
+      rw [hq]
+      have hsp : splitOn sep t = a :: splitOn sep rest := by rw [hta]; exact splitOn_append_sep sep a rest hna
+      rw [hsp]
+      simp [hbin, hb, ho, hta]
+      have : pre.length + (a.length + 1) - a.length - 1 = pre.length := by omega
+      rw [this]; simp
+    · have hmem : memchr (t ++ tl) sep t.length = none := by
+        apply memchr_none
+        simp [hsep]
+      have hnext : pathNext p = .ok ({ p with off := p.off + p.len, len := 0 }, t.length) := by
+        simp only [pathNext, hl, hbin, hfi, hdata, hs]
+        simp [hb, ho, hmem]
+      obtain ⟨f', rfl⟩ : ∃ f', f = f' + 1 := ⟨f - 1, by omega⟩
+      simp only [elems]
+      have hl0 : ¬ p.len = 0 := by omega
+      simp only [hl0, ↓reduceIte, hnext]
+      rw [splitOn_no_sep sep t hsep]
+      simp [hbin, hb, ho, hl]
+      have : pre.length + (t.length + 1) - t.length - 1 = pre.length := by omega
+      rw [this]; simp
+
+/-- scan up to the first assign character or terminator `x`, after the first separator was seen: `first` stays -/
+theorem setScanG_later (sep assign : Byte) (hs : sep ≠ 0) (hsa : sep ≠ assign) :
+    ∀ (t : List Byte) (x : Byte) (tl : List Byte) (plen elem first : Nat),
+    (∀ c ∈ t, c ≠ assign ∧ c ≠ 0) → (x = assign ∨ x = 0) → elem ≠ 0 →
+    (setScan sep assign (t ++ x :: tl) plen elem first).1 = plen + t.length + 1 ∧
+    (setScan sep assign (t ++ x :: tl) plen elem first).2.2.1 = first ∧
+    (setScan sep assign (t ++ x :: tl) plen elem first).2.2.2 = true
+  | [], x, tl, plen, elem, first, _, hx, _ => by simp [setScan, hx]
+  | c :: cs, x, tl, plen, elem, first, h0, hx, he => by
+    have hc := h0 c (by simp)
+    have h0' : ∀ d ∈ cs, d ≠ assign ∧ d ≠ 0 := fun d hd => h0 d (by simp [hd])
+    have hc0 : ¬ (c = assign ∨ c = 0) := by simp [hc.1, hc.2]
+    simp only [List.cons_append, setScan, hc0, ↓reduceIte]
+    by_cases hcs : c = sep
+    · simp only [hcs, ↓reduceIte, he]
+      have := setScanG_later sep assign hs hsa cs x tl (plen + 1) (elem + 1) first h0' hx (by omega)
+      simp only [List.length_cons]
+      refine ⟨by rw [this.1]; omega, this.2.1, this.2.2⟩
+    · simp only [hcs, ↓reduceIte]
+      have := setScanG_later sep assign hs hsa cs x tl (plen + 1) elem first h0' hx he
+      simp only [List.length_cons]
+      refine ⟨by rw [this.1]; omega, this.2.1, this.2.2⟩
+
+/-- scan up to the first assign character or terminator `x`, before any separator was seen -/
+theorem setScanG_first (sep assign : Byte) (hs : sep ≠ 0) (hsa : sep ≠ assign) :
+    ∀ (t : List Byte) (x : Byte) (tl : List Byte) (plen first : Nat),
+    (∀ c ∈ t, c ≠ assign ∧ c ≠ 0) → (x = assign ∨ x = 0) →
+    (setScan sep assign (t ++ x :: tl) plen 0 first).1 = plen + t.length + 1 ∧
+    (setScan sep assign (t ++ x :: tl) plen 0 first).2.2.2 = true ∧
+    (sep ∉ t → (setScan sep assign (t ++ x :: tl) plen 0 first).2.2.1 = first) ∧
+    (∀ a rest, t = a ++ sep :: rest → sep ∉ a → (setScan sep assign (t ++ x :: tl) plen 0 first).2.2.1 = plen + a.length)
+  | [], x, tl, plen, first, _, hx => by
+    simp [setScan, hx]
+  | c :: cs, x, tl, plen, first, h0, hx => by
+    have hc := h0 c (by simp)
+    have h0' : ∀ d ∈ cs, d ≠ assign ∧ d ≠ 0 := fun d hd => h0 d (by simp [hd])
+    have hc0 : ¬ (c = assign ∨ c = 0) := by simp [hc.1, hc.2]
+    simp only [List.cons_append, setScan, hc0, ↓reduceIte]
+    by_cases hcs : c = sep
+    · simp only [hcs, ↓reduceIte]
+      have := setScanG_later sep assign hs hsa cs x tl (plen + 1) 1 plen h0' hx (by omega)
+      simp only [List.length_cons]
+      refine ⟨by rw [this.1]; omega, this.2.2, by simp, ?_⟩
+      intro a rest hta hna
+      cases a with
+      | nil => simpa using this.2.1
+      | cons y ys =>
+        simp at hta hna
+        exact absurd hta.1 hna.1
+    · simp only [hcs, ↓reduceIte]
+      have := setScanG_first sep assign hs hsa cs x tl (plen + 1) first h0' hx
+      simp only [List.length_cons]
+      refine ⟨by rw [this.1]; omega, this.2.1, ?_, ?_⟩
+      · intro h
+        simp at h
+        exact this.2.2.1 h.2
+      · intro a rest hta hna
+        cases a with
+        | nil => simp at hta; exact absurd hta.1 hcs
+        | cons y ys =>
+          simp at hta hna
+          rw [this.2.2.2 ys rest hta.2 hna.2]
+          simp; omega
+
+
+/-- a terminated text up to its first assign character (or the terminator) -/
+theorem text_decomp (assign : Byte) : ∀ (text : List Byte), (0 : Byte) ∉ text →
+    ∃ x tl, text ++ [0] = text.takeWhile (· ≠ assign) ++ x :: tl ∧ (x = assign ∨ x = 0) ∧
+      ∀ c ∈ text.takeWhile (· ≠ assign), c ≠ assign ∧ c ≠ 0
+  | [], _ => ⟨0, [], by simp, Or.inr rfl, by simp⟩
+  | c :: cs, h0 => by
+    simp at h0
+    by_cases hc : c = assign
+    · exact ⟨assign, cs ++ [0], by simp [hc], Or.inl rfl, by simp [hc]⟩
+    · obtain ⟨x, tl, h1, h2, h3⟩ := text_decomp assign cs h0.2
+      refine ⟨x, tl, by simp [hc, h1], h2, ?_⟩
+      intro d hd
+      simp [hc] at hd
+      rcases hd with rfl | hd
+      · exact ⟨hc, fun e => h0.1 e.symm⟩
+      · exact h3 d (by simpa using hd)
+
+/-- `mpt_path_set` with any assign character followed by `mpt_path_next` until the path is used up visits exactly
+    the separator-delimited components of the text in front of the first assign character -/
+theorem elems_pathSet_assign (sep assign : Byte) (hs : sep ≠ 0) (hsa : sep ≠ assign) (text : List Byte)
+    (h0 : (0 : Byte) ∉ text) :
+    elems (pathSet sep assign text).1 (text.length + 2) = .ok (splitPath sep assign text) := by
+  obtain ⟨x, tl, hdec, hx, hall⟩ := text_decomp assign text h0
+  simp only [splitPath]
+  generalize ht : text.takeWhile (· ≠ assign) = t at hdec hall ⊢
+  have htlen : t.length ≤ text.length := by
+    have := congrArg List.length hdec
+    simp at this; omega
+  obtain ⟨h1, h2, h3, h4⟩ := setScanG_first sep assign hs hsa t x tl 0 0 hall hx
+  simp only [Nat.zero_add] at h1
+  have hbase : (pathSet sep assign text).1.base = [] ++ t ++ x :: tl := by simp [pathSet, hdec]
+  have hlen : (pathSet sep assign text).1.len = t.length + 1 := by simp [pathSet, hdec, h1, h2]
+  by_cases hsep : sep ∈ t
+  · obtain ⟨a, rest, hta, hna⟩ := exists_first_sep sep t hsep
+    have hf := h4 a rest hta hna
+    simp only [Nat.zero_add] at hf
+    by_cases hbig : a.length = 0 ∨ a.length > 255
+    · refine elems_first0G sep t.length t [] (x :: tl) _ _ (Nat.le_refl _) (by omega) (by simp) hbase (by simp [pathSet])
+        hlen ?_ (by simp [pathSet]) (by simp [pathSet])
+      simp only [pathSet, hdec, hf]
+      rcases hbig with h | h
+      · simp [h]
+      · simp [h]
+    · have ha : 0 < a.length ∧ a.length ≤ 255 := by omega
+      have hfirst : (pathSet sep assign text).1.first = a.length := by
+        simp only [pathSet, hdec, hf]
+        have : ¬ a.length > 255 := by omega
+        simp [this]
+      have hnext : pathNext (pathSet sep assign text).1 =
+          .ok ({ (pathSet sep assign text).1 with first := 0, off := a.length + 1, len := t.length + 1 - (a.length + 1) }, a.length) := by
+        have hne : ¬ a.length = 0 := by omega
+        have hle : ¬ (a.length + 1 > t.length + 1) := by rw [hta]; simp
+        simp only [pathNext, hlen, hfirst]
+        simp [pathSet, hne, hle]
+      have hq := elems_first0G sep rest.length rest (a ++ [sep]) (x :: tl)
+        { (pathSet sep assign text).1 with first := 0, off := a.length + 1, len := t.length + 1 - (a.length + 1) } (text.length + 1)
+        (Nat.le_refl _) (by rw [hta] at htlen; simp at htlen; omega) (by simp) (by simp [pathSet, hdec, hta]) (by simp)
+        (by rw [hta]; simp) rfl (by simp [pathSet]) (by simp [pathSet])
+      rw [show text.length + 2 = (text.length + 1) + 1 from rfl, elems]
+      have hl0 : ¬ (pathSet sep assign text).1.len = 0 := by rw [hlen]; omega
+      simp only [hl0, ↓reduceIte, hnext]
+      rw [hq]
+      have hsp : splitOn sep t = a :: splitOn sep rest := by rw [hta]; exact splitOn_append_sep sep a rest hna
+      rw [hsp]
+      simp [pathSet, hdec, hta]
+  · refine elems_first0G sep t.length t [] (x :: tl) _ _ (Nat.le_refl _) (by omega) (by simp) hbase (by simp [pathSet])
+      hlen ?_ (by simp [pathSet]) (by simp [pathSet])
+    simp [pathSet, hdec, h3 hsep]
+
+
 end Mpt.Config
